@@ -230,7 +230,7 @@ var osIntercepted = map[string]bool{
 // FS-touching (or process-level) names that the facade forwards without interception: a
 // tree that uses them outside --watch reaches the disk behind the simulator's back.
 var osUnsupported = map[string]bool{
-	"DirFS": true, "CopyFS": true, "CreateTemp": true, "MkdirTemp": true, "OpenRoot": true, "OpenInRoot": true,
+	"DirFS": true, "CopyFS": true, "OpenRoot": true, "OpenInRoot": true,
 	"Chdir": true, "StartProcess": true, "Pipe": true, "Root": true,
 }
 
